@@ -63,7 +63,19 @@ pub fn c16_eval(ast: &Node, flags: Flags, hays: &[Hay], known: &Known, st: &mut 
         }
         let expected = rt.all_from(0, hay);
         let text = hay.text.as_str();
-        let got = subject::guarded(500_000, || re.find_iter(text).take(16).collect::<Vec<regress::Match>>());
+        // a Match is a Match whichever executor produced it: the default one and the PikeVM
+        for pike in [false, true] {
+        #[cfg(not(feature = "pikevm"))]
+        if pike {
+            continue;
+        }
+        let got = subject::guarded(500_000, || -> Vec<regress::Match> {
+            #[cfg(feature = "pikevm")]
+            if pike {
+                return regress::backends::find::<regress::backends::PikeVMExecutor>(&re, text, 0).take(16).collect();
+            }
+            re.find_iter(text).take(16).collect()
+        });
         st.add("transitions", subject::steps());
         let ms = match got {
             Outcome::Ok(v) => v,
@@ -156,9 +168,10 @@ pub fn c16_eval(ast: &Node, flags: Flags, hays: &[Hay], known: &Known, st: &mut 
                 }
             }
             for (what, e, g) in bad {
-                let cl = format!("{} /{}/{}", what, sweep::shape(&pat), flags.to_string());
-                st.violation(known, "C16", &cl, pat.len() * 8 + hay.cps.len(), sweep::case_json(&pat, flags, hay, 0, &what, e, g).set("match_index", J::u(mi as u64)));
+                let cl = format!("{}{} /{}/{}", what, if pike { " (PikeVM)" } else { "" }, sweep::shape(&pat), flags.to_string());
+                st.violation(known, "C16", &cl, pat.len() * 8 + hay.cps.len(), sweep::case_json(&pat, flags, hay, 0, &what, e, g).set("match_index", J::u(mi as u64)).set("executor", J::s(if pike { "PikeVM" } else { "default (backtracking)" })));
             }
+        }
         }
     }
 }
@@ -190,9 +203,9 @@ fn dup_family() -> Vec<Node> {
 }
 
 pub fn c16(run: &mut Run) -> Stats {
-    run.rule = "every alternation of 2-4 arms from a 7-arm menu of (duplicate-)named groups, alone, before \\k<n>, inside a lookbehind and under *; every AST of P-named (named, unnamed and duplicate-named groups, \\k and \\1 references, lookbehind, quantifiers), P-look and P-core up to the size bound x flags x every haystack x every match of find_iter; non-trivial = the pattern has at least one capturing group".into();
+    run.rule = "every alternation of 2-4 arms from a 7-arm menu of (duplicate-)named groups, alone, before \\k<n>, inside a lookbehind and under *; every AST of P-named (named, unnamed and duplicate-named groups, \\k and \\1 references, lookbehind, quantifiers), P-look, P-core, P-fail and P-capback up to the size bound x flags x every haystack x every match of find_iter, from the default executor and from the PikeVM; non-trivial = the pattern has at least one capturing group".into();
     run.assumptions = vec!["captures are compared with the ES2025 reference matcher; the accessor identities are checked on every match".into()];
-    let st = sweep::drive(run, "C16", &["named", "look", "core", "fail"], &|sp, th| enumerate::all_hays(&sp.alphabet, if th { sp.hay_thorough } else { sp.hay_quick }), &c16_eval);
+    let st = sweep::drive(run, "C16", &["named", "look", "core", "fail", "capback"], &|sp, th| enumerate::all_hays(&sp.alphabet, if th { sp.hay_thorough } else { sp.hay_quick }), &c16_eval);
     let fam = dup_family();
     let hays = enumerate::all_hays(&enumerate::chars("ab"), 3);
     let known = &run.known;
@@ -270,9 +283,39 @@ pub fn expand_model(template: &str, text: &str, whole: (usize, usize), caps: &[R
     Some(out)
 }
 
-fn named_model(m: &regress::Match) -> Vec<(String, Rng)> {
-    // the participating group per distinct name (what C16 establishes for named_groups())
-    m.named_groups().map(|(n, r)| (n.to_string(), r2(r))).collect()
+/// The participating group per distinct name, computed from the pattern's own group names (reference parse)
+/// and a capture list - nothing is read back from the subject's name tables.
+fn named_model(names: &[Option<String>], caps: &[Rng]) -> Vec<(String, Rng)> {
+    let mut out: Vec<(String, Rng)> = Vec::new();
+    for (i, n) in names.iter().enumerate() {
+        let Some(n) = n else { continue };
+        let v = caps.get(i).cloned().flatten();
+        match out.iter_mut().find(|(k, _)| k == n) {
+            Some(e) => {
+                if v.is_some() {
+                    e.1 = v;
+                }
+            }
+            None => out.push((n.clone(), v)),
+        }
+    }
+    out
+}
+
+/// Reference match sequence (ranges and captures) of a menu entry: reference parser + reference matcher.
+fn reference_matches(p: &str, f: &str, h: &str) -> Option<(Vec<Option<String>>, Vec<subject::SMatch>)> {
+    let pat: Vec<u32> = p.chars().map(|c| c as u32).collect();
+    let fl = Flags::parse(f);
+    let ast = crate::refparse::parse(&pat, fl).ok()?;
+    let mut names: Vec<Option<String>> = Vec::new();
+    ast.group_names(&mut names);
+    let prog = refmatch::compile(&ast, fl).ok()?;
+    let hay = Hay::new(h.chars().map(|c| c as u32).collect());
+    let rt = sweep::ref_table(&prog, &hay, 5_000_000);
+    if rt.cut {
+        return None;
+    }
+    Some((names, rt.all_from(0, &hay)))
 }
 
 pub fn c17(run: &mut Run) -> Stats {
@@ -283,7 +326,7 @@ pub fn c17(run: &mut Run) -> Stats {
         "all templates over {{$ 0 1 2 9 {{ }} n x é}} of length <= {} plus all sequences of <= 4 (5 thorough) tokens from {{$ $$ $0 $1 $2 $12 $9 ${{n}} ${{x}} ${{nx}} ${{ ${{}} }} {{ n é 0}} plus \"$\" followed by every digit string over {{0 1 2 6 9}} of length <= 7 (9 thorough), bare or followed by x or $1, x a menu of (pattern, flags, haystack) whose match sequences cover: no match, one, adjacent, empty matches at every position incl. around multibyte characters, non-participating and named groups; replace, replace_all, replace_with, replace_all_with; non-trivial = the template contains a $ and the regex matches",
         tlen
     );
-    run.assumptions = vec!["model: splice-and-expand over find_iter's own match sequence (mc/src/apichecks.rs expand_model); named lookups use the participating group (C16)".into()];
+    run.assumptions = vec!["model: splice-and-expand (mc/src/apichecks.rs expand_model) over the match sequence of the reference parser + reference matcher, names taken from the reference parse: nothing is read back from the subject".into()];
     let menu: Vec<(&str, &str, &str)> = vec![
         ("b", "", "aaa"),
         ("a", "", "a"),
@@ -309,6 +352,13 @@ pub fn c17(run: &mut Run) -> Stats {
         ("x", "", ""),
         ("(?<nx>😀)", "u", "a😀😀"),
         ("(é)*", "", "ééaé"),
+        // three duplicates of one name; groups that participate in one match and not in the next
+        ("(?<n>a)|(?<n>b)|(?<n>c)", "", "cab"),
+        ("(?:(?<n>a)|(?<n>b)|(?<x>c))+", "", "xxabcxxba"),
+        ("(a)|(b)", "", "abba"),
+        ("(?<n>\\w+)=(?<x>\\d+)|(?<nx>--\\w+)", "", "n=1 --v m=2"),
+        ("x*", "", "é"),
+        ("(?=é)", "", "aéb"),
     ];
     // all templates
     let mut templates: Vec<String> = vec![String::new()];
@@ -378,13 +428,15 @@ pub fn c17(run: &mut Run) -> Stats {
         .iter()
         .map(|(p, f, h)| (regress::Regex::with_flags(p, *f).unwrap_or_else(|e| panic!("menu pattern {} does not compile: {}", p, e)), *p, *f, *h))
         .collect();
+    // the match sequences the model splices over come from the reference matcher, not from the subject
+    let refs: Vec<(Vec<Option<String>>, Vec<subject::SMatch>)> = menu.iter().map(|(p, f, h)| reference_matches(p, f, h).unwrap_or_else(|| panic!("menu entry {} {} outside the reference", p, h))).collect();
     let total = templates
         .par_iter()
         .fold(Stats::default, |mut st, tpl| {
-            for (re, p, f, h) in &compiled {
+            for (mi, (re, p, f, h)) in compiled.iter().enumerate() {
                 st.add("evaluations", 1);
                 let text: &str = h;
-                let matches: Vec<regress::Match> = re.find_iter(text).collect();
+                let (names, matches) = &refs[mi];
                 if tpl.contains('$') && !matches.is_empty() {
                     st.add("nontrivial", 1);
                 }
@@ -394,16 +446,16 @@ pub fn c17(run: &mut Run) -> Stats {
                 let mut last = 0usize;
                 let mut decided = true;
                 for (k, m) in matches.iter().enumerate() {
-                    let caps: Vec<Rng> = m.captures.iter().map(|c| r2(c.clone())).collect();
-                    let Some(exp) = expand_model(tpl, text, (m.start(), m.end()), &caps, &named_model(m)) else {
+                    let caps: Vec<Rng> = m.caps.clone();
+                    let Some(exp) = expand_model(tpl, text, (m.start, m.end), &caps, &named_model(names, &caps)) else {
                         decided = false;
                         break;
                     };
-                    model_all.push_str(&text[last..m.start()]);
+                    model_all.push_str(&text[last..m.start]);
                     model_all.push_str(&exp);
-                    last = m.end();
+                    last = m.end;
                     if k == 0 {
-                        model_first = Some(format!("{}{}{}", &text[..m.start()], exp, &text[m.end()..]));
+                        model_first = Some(format!("{}{}{}", &text[..m.start], exp, &text[m.end..]));
                     }
                 }
                 if !decided {
@@ -412,7 +464,7 @@ pub fn c17(run: &mut Run) -> Stats {
                 }
                 model_all.push_str(&text[last..]);
                 let model_first = model_first.unwrap_or_else(|| text.to_string());
-                let got = subject::guarded(u64::MAX, || (re.replace(text, tpl), re.replace_all(text, tpl)));
+                let got = subject::guarded(2_000_000, || (re.replace(text, tpl), re.replace_all(text, tpl)));
                 st.add("validated", 1);
                 let mut report = |what: &str, e: &str, g: &str, st: &mut Stats| {
                     let case = J::obj()
@@ -439,7 +491,7 @@ pub fn c17(run: &mut Run) -> Stats {
                         }
                     }
                     Outcome::Panic(m) => report("panic in replace", "", &m, &mut st),
-                    Outcome::Fuel => {}
+                    Outcome::Fuel => report("replace / replace_all does not return within the step horizon", &model_all, "(2,000,000 matcher steps used)", &mut st),
                 }
             }
             st
@@ -447,25 +499,54 @@ pub fn c17(run: &mut Run) -> Stats {
         .reduce(Stats::default, Stats::merge);
     // closure variants: identity and constant closures, once per menu entry
     let mut st2 = Stats::default();
-    for (re, p, f, h) in &compiled {
+    for (mi, (re, p, f, h)) in compiled.iter().enumerate() {
         let text: &str = h;
         st2.add("evaluations", 1);
         st2.add("validated", 1);
-        let id_all = re.replace_all_with(text, |m| m.as_str(text).to_string());
-        let id_one = re.replace_with(text, |m| m.as_str(text).to_string());
-        let matches: Vec<regress::Match> = re.find_iter(text).collect();
+        let (names, matches) = &refs[mi];
+        let show = |m: &regress::Match| -> String {
+            // the closure sees the match: render everything it can read (range, every group, every name)
+            let gs: Vec<String> = m.groups().map(|g| g.map(|r| format!("{}..{}", r.start, r.end)).unwrap_or_else(|| "-".into())).collect();
+            let ns: Vec<String> = m.named_groups().map(|(n, g)| format!("{}={}", n, g.map(|r| format!("{}..{}", r.start, r.end)).unwrap_or_else(|| "-".into()))).collect();
+            format!("<{}|{}>", gs.join(","), ns.join(","))
+        };
+        let show_model = |m: &subject::SMatch| -> String {
+            let mut gs: Vec<String> = vec![format!("{}..{}", m.start, m.end)];
+            gs.extend(m.caps.iter().map(|g| g.map(|(a, b)| format!("{}..{}", a, b)).unwrap_or_else(|| "-".into())));
+            let ns: Vec<String> = named_model(names, &m.caps).iter().map(|(n, g)| format!("{}={}", n, g.map(|(a, b)| format!("{}..{}", a, b)).unwrap_or_else(|| "-".into()))).collect();
+            format!("<{}|{}>", gs.join(","), ns.join(","))
+        };
+        let guarded = subject::guarded(2_000_000, || {
+            (
+                re.replace_all_with(text, |m| m.as_str(text).to_string()),
+                re.replace_with(text, |m| m.as_str(text).to_string()),
+                re.replace_all_with(text, |_| "<$1>".to_string()),
+                re.replace_with(text, |_| "<$1>".to_string()),
+                re.replace_all_with(text, |m| show(m)),
+            )
+        });
+        let (id_all, id_one, k_all, k_one, seen_all) = match guarded {
+            Outcome::Ok(x) => x,
+            other => {
+                let case = J::obj().set("kind", J::s("replace_with")).set("pattern", J::s(p)).set("flags", J::s(f)).set("haystack", J::s(h)).set("what", J::s("closure variants do not return / panic")).set("got", J::s(&format!("{:?}", other)));
+                st2.violation(&known, "C17", &format!("closure variants do not return /{}/", p), h.len(), case);
+                continue;
+            }
+        };
         let mut konst = String::new();
+        let mut seen_model = String::new();
         let mut last = 0;
-        for m in &matches {
-            konst.push_str(&text[last..m.start()]);
+        for m in matches {
+            konst.push_str(&text[last..m.start]);
             konst.push_str("<$1>");
-            last = m.end();
+            seen_model.push_str(&text[last..m.start]);
+            seen_model.push_str(&show_model(m));
+            last = m.end;
         }
         konst.push_str(&text[last..]);
-        let k_all = re.replace_all_with(text, |_| "<$1>".to_string());
-        let k_one = re.replace_with(text, |_| "<$1>".to_string());
+        seen_model.push_str(&text[last..]);
         let k_one_model = match matches.first() {
-            Some(m) => format!("{}<$1>{}", &text[..m.start()], &text[m.end()..]),
+            Some(m) => format!("{}<$1>{}", &text[..m.start], &text[m.end..]),
             None => text.to_string(),
         };
         let mut rep = |what: &str, e: &str, g: &str| {
@@ -483,6 +564,9 @@ pub fn c17(run: &mut Run) -> Stats {
         }
         if k_one != k_one_model {
             rep("replace_with(constant) differs from the splice model", &k_one_model, &k_one);
+        }
+        if seen_all != seen_model {
+            rep("the Match handed to the replace_all_with closure differs from the reference match (range, groups, names)", &seen_model, &seen_all);
         }
     }
     run.extra.push(("templates".into(), J::u(templates.len() as u64)));
